@@ -993,7 +993,7 @@ def canon(e, depth=0, cd=99):
     if k == 'fnitem':
         return short(e[1])
     if k == 'overflow':
-        return 'overflow'
+        return C(e[1])
     if k == 'phi':
         alts = sorted(set(C(x) for x in e[1]))
         return alts[0] if len(alts) == 1 else 'phi{%s}' % ' | '.join(alts)
